@@ -31,7 +31,10 @@ RULE = ("part 'history': random histories over log / add_destinations(1-3 new de
         "so a logging call that gives up waiting for the hand-over shows as a message delivered ahead of buffered ones. part 'registry' (switch points also between a call instruction and the use of its result inside one line): after the hand-over, 2-3 threads "
         "add and remove destinations (and one logs) concurrently under the same scheduler, all one-preemption schedules: every "
         "destination whose add returned receives a message logged afterwards, every removed one does not, the destination registered "
-        "throughout receives everything once. non-trivial = history with >=2 adds and a "
+        "throughout receives everything once. part 'signals': 0-3 messages logged before any destination exists, the first add_destinations, 0-2 messages afterwards, all in a forked process, with a Python "
+        "signal handler that itself logs delivered at EVERY point inside those calls at which CPython can run a handler (after each call instruction and at each function entry "
+        "inside eliot/_output.py, _action.py, _message.py), one process per point: every message whose logging call returned - the handler's included - reaches the destination exactly "
+        "once, buffered ones in order and ahead of later ones, global fields present, no call raises and none blocks for good (where the handler's own message comes out is not judged). non-trivial = history with >=2 adds and a "
         "remove, or >1000 buffered; a registration made by the first destination while the start-up buffer is being replayed into it (it returns normally, "
         "nothing fails, the new destination receives everything logged from then on); schedule whose preemption fired inside Destinations.add/send; distinct by history / interleaving hash")
 ASSUMPTIONS = ["switch points are statement boundaries and blocking primitives (CPython granularity)",
@@ -50,6 +53,7 @@ def plan(tier, seed):
     specs += [{"part": "registry", "seed": seed, "i": i, "tier": tier} for i in range(8 if tier == "quick" else 60)]
     k = 40 if tier == "quick" else 1500
     specs += [{"part": "indelivery", "seed": seed, "lo": i, "hi": min(k, i + 20)} for i in range(0, k, 20)]
+    specs += [{"part": "signals", "seed": seed, "i": i} for i in range(8 if tier == "quick" else 48)]
     return specs
 
 
@@ -911,7 +915,51 @@ def part_indelivery(spec, res):
             res["violations"].append({"msg": problems[0], "mech": None, "detail": {"part": "indelivery", "scenario": sc, "problems": problems[:5], "observed": data if kind == "ok" else None}})
 
 
+def part_signals(spec, res):
+    """The start-up phase and the first add_destinations with a signal handler that logs, delivered at EVERY point inside those calls at
+    which CPython can run a handler (vf/sigreent.py); one forked process per point (each is a forked child: the first logging call of a
+    process other than the one eliot was imported in is part of what is explored)."""
+    from vf import sigreent
+    i = spec["i"]
+    nprebuf, nafter, with_globals = [(1, 0, False), (2, 1, True), (3, 1, False), (0, 2, False), (2, 0, True), (1, 2, False), (3, 0, True), (2, 2, False)][i % 8]
+    c = res["counters"]
+    kind, base = call_in_fork(lambda: sigreent.run_handover(nprebuf, nafter, 0, with_globals), timeout=120)
+    if kind != "ok" or base.get("skip"):
+        res["inconclusive"] = "signals: baseline run %s %s" % (kind, str(base)[-200:])
+        return
+    step = 1 if (spec["i"] < 8) else 1
+    for k in range(1, base["points"] + 1, step):
+        kind, d = call_in_fork(lambda: sigreent.run_handover(nprebuf, nafter, k, with_globals), timeout=120)
+        res["evals"] += 1
+        if kind in ("timeout", "died"):
+            res["inconclusive"] = "signals: child %s at point %d" % (kind, k)
+            return
+        problems = []
+        if kind != "ok":
+            problems.append("run failed: %s" % str(d)[-400:])
+        else:
+            if d["handler_runs"] != 1:
+                continue
+            c["signal_handlers_run_inside_startup_or_handover_calls"] = c.get("signal_handlers_run_inside_startup_or_handover_calls", 0) + 1
+            if d["fired"] and ":add:" in d["fired"]:
+                c["signal_handlers_run_inside_the_first_add"] = c.get("signal_handlers_run_inside_the_first_add", 0) + 1
+            res["sets"]["signal_points"].append(d["fired"])
+            res["nontrivial"].append(h(["sig", nprebuf, nafter, with_globals, k]))
+            sigreent.judge_handover(d, nprebuf, nafter, with_globals, problems)
+        if problems and len(res["violations"]) < 3:
+            where = d["fired"] if kind == "ok" else "?"
+            res["violations"].append({"msg": "a signal handler that logs ran at %s while %d messages were buffered / handed over: %s" % (where, nprebuf, problems[0]), "mech": None,
+                                      "detail": {"part": "signals", "prebuffered": nprebuf, "after": nafter, "global_fields": with_globals, "point": k, "landed_at": where,
+                                                 "problems": problems[:5], "tape": d.get("tape") if kind == "ok" else None}})
+        elif problems:
+            c["further_violating_signal_points"] = c.get("further_violating_signal_points", 0) + 1
+
+
 def run_case(spec):
+    if spec["part"] == "signals":
+        res = {"evals": 0, "nontrivial": [], "counters": {}, "violations": [], "sample": None, "sets": {"signal_points": []}}
+        part_signals(spec, res)
+        return res
     if spec["part"] == "registry":
         res = {"evals": 0, "nontrivial": [], "counters": {}, "violations": [], "sample": None, "sets": {"interleavings": [], "preemption_lines": []}}
         part_registry(spec, res)
@@ -938,6 +986,8 @@ def finalize(agg, tier):
         return "no log call was waiting for the hand-over when a global field was set during the replay of the start-up buffer"
     if c.get("schedules_with_arbitrarily_slow_replay", 0) < 50 or c.get("logical_timeouts_expired", 0) < 50:
         return "fewer than 50 hand-over schedules in which the destination stalled on a buffered message"
+    if c.get("signal_handlers_run_inside_the_first_add", 0) < 20:
+        return "fewer than 20 logging signal handlers ran inside the first add_destinations call (part 'signals')"
     lines = agg["sets"].get("preemption_lines", {})
     if not any(l.startswith("_output.py") for l in lines):
         return "no preemption landed inside eliot/_output.py"
